@@ -55,6 +55,34 @@ def hand_specs():
     return [[(p, open(os.path.join(d, p), encoding='utf-8').read()) for p in group] for group in HAND_SPECS]
 
 
+_SESSION_BY_SPECS = {}
+
+
+def _ts_ids(x, out):
+    if isinstance(x, (list, tuple)):
+        if len(x) >= 2 and x[0] == 't' and isinstance(x[1], int) and not isinstance(x[1], bool):
+            out.add(x[1])
+        for y in x:
+            _ts_ids(y, out)
+    elif isinstance(x, dict):
+        for y in x.values():
+            _ts_ids(y, out)
+
+
+def _replay_ctx(case):
+    """Values name timestamps by their id in the session's registry: a replay file carries the ones it refers to."""
+    ses = _SESSION_BY_SPECS.get(id(case.get('specs'))) if isinstance(case, dict) else None
+    if ses is None:
+        return case
+    ids = set()
+    _ts_ids({k: v for k, v in case.items() if k != 'specs'}, ids)
+    if not ids:
+        return case
+    case = dict(case)
+    case['timestamps'] = {str(i): ses.ts.by_id[i].isoformat() for i in sorted(ids) if i < len(ses.ts.by_id)}
+    return case
+
+
 class Session:
     """One compiled spec: real generated classes + the model's environment."""
 
@@ -65,6 +93,8 @@ class Session:
         self.api = self.built.api
         self.env = irdump.env_of(self.api)
         self.ts = values.TsRegistry()
+        _SESSION_BY_SPECS[id(specs)] = self
+        ck.replay_ctx = _replay_ctx
         self.codec = values.Codec(self.built, self.ts)
         self.gen = values.ValueGen(ck.rng, self.api, self.ts)
         self.types = irdump.top_level_types(self.api)
@@ -1104,6 +1134,14 @@ def replay(ck, path):
         print('replay: type %r not found' % label)
         return 2
     label, ir = found[0]
+    if case.get('timestamps'):
+        import datetime
+        table = {int(k): datetime.datetime.fromisoformat(v) for k, v in case['timestamps'].items()}
+        for i in range(max(table) + 1):
+            # ids are positions in the registry: fill the gaps so that the recorded ids mean the recorded instants
+            dt = table.get(i, datetime.datetime(1971, 1, 1) + datetime.timedelta(seconds=i))
+            ses.ts.by_id.append(dt)
+            ses.ts.ids[(dt.replace(tzinfo=None), None if dt.tzinfo is None else dt.utcoffset().total_seconds())] = i
     validator = ses.validator(label, ir)
     irt = irdump.ir_ty(ir)
     if 'doc' in case and case['doc'] is not None:
